@@ -1,4 +1,4 @@
-\* generation (thorough): all histories of 4 calls
+\* generation (thorough): every continuation of length 3 of the pool prefixes
 SPECIFICATION Spec
 CONSTANTS
   ResSizes = {40, 100, 300}
@@ -6,10 +6,10 @@ CONSTANTS
   ResizeTo = {0, 200, 512, 1024}
   MaxPoolBytes = 2048
   Sizes = {48}
-  MaxLiveRes = 3
-  MaxBufs = 4
+  MaxLiveRes = 4
+  MaxBufs = 1
   MaxPools = 1
-  MaxHist = 4
+  MaxHist = 3
   HostPtrImpl = "counted"
-  Prefixes <- NoPrefix
+  Prefixes <- PoolPrefixes
 CONSTRAINT PrefixOK
